@@ -52,6 +52,9 @@ def main():
         patch = os.path.join(d, "patch.diff")
         demo = os.path.join(d, "demo.py")
         target = re.match(r"(C\d\d)", name).group(1)
+        if os.path.exists(os.path.join(d, "OBSOLETE.md")):
+            print(json.dumps({"name": name, "obsolete": open(os.path.join(d, "OBSOLETE.md")).readline().strip()}))
+            continue
         meta_path = os.path.join(d, "meta.json")
         meta = json.load(open(meta_path)) if os.path.exists(meta_path) else {}
         wt = tempfile.mkdtemp(prefix="lena_seed_")
